@@ -194,7 +194,8 @@ template <size_t N, class C, bool BMI> static void morton_curve_h()
 // curve properties on the 2^K x 2^K square (static index function)
 template <unsigned K> static void hilbert_curve_h()
 {
-    using B = backend::hilbert<vector::size2, backend::array<vector::float1>>;
+    // (dependent on K so that a change of the static index function's signature only affects the units that use it)
+    using B = backend::hilbert<vector::vector_d<size_t, (K < 64 ? 2 : 3)>, backend::array<vector::float1>>;
     constexpr size_t n = size_t(1) << K;
     size_t x = vf_nondet_size(), y = vf_nondet_size(), x2 = vf_nondet_size(), y2 = vf_nondet_size();
     vf_assume(x < n && y < n && x2 < n && y2 < n);
